@@ -162,6 +162,11 @@ DEFINITE_KINDS = ("subscript-store:const", "attr-aug:", "method:sort", "method:r
                   "method:insert", "method:extend", "method:popitem", "method:discard", "del", "global-rebind:", "subscript-aug", "aug-assign")
 
 
+def _mentions(text: str, base: str) -> bool:
+    """`base` occurs in `text` as a whole (dotted) name, not as part of a longer identifier"""
+    return re.search(r"(?<![\w.])" + re.escape(base) + r"(?![\w])", text) is not None
+
+
 def store_is_rmw(model: Model, func: str, line: int) -> bool:
     """Is the keyed store at `line` of `func` a read-modify-write of the container (value computed from what the
     container held, e.g. `for i, v in enumerate(self.xs): self.xs[i] = f(v)`)?"""
@@ -176,11 +181,11 @@ def store_is_rmw(model: Model, func: str, line: int) -> bool:
                     base = core.src(t.value)
                     seeds = _names(st.value)
                     deps = derive_vars(fn, seeds)
-                    if base in core.src(st.value):
+                    if _mentions(core.src(st.value), base):
                         return True
                     # names bound by iterating / indexing the same container
                     for n in ast.walk(fn):
-                        if isinstance(n, ast.For) and base in core.src(n.iter) and (_names(n.target) & deps):
+                        if isinstance(n, ast.For) and _mentions(core.src(n.iter), base) and (_names(n.target) & deps):
                             # the loop index alone does not carry content
                             carried = set()
                             if isinstance(n.iter, ast.Call) and core.src(n.iter.func) == "enumerate" and isinstance(n.target, ast.Tuple) and len(n.target.elts) == 2:
@@ -228,12 +233,12 @@ def call_is_rmw(model: Model, func: str, line: int) -> bool:
             base = core.src(n.func.value)
             seeds: Set[str] = set()
             for a in list(n.args) + [k.value for k in n.keywords]:
-                if base in core.src(a):
+                if _mentions(core.src(a), base):
                     return True
                 seeds |= _names(a)
             deps = derive_vars(fn, seeds)
             for m in ast.walk(fn):
-                if isinstance(m, ast.Assign) and base in core.src(m.value) and (_names(m.targets[0]) & deps):
+                if isinstance(m, ast.Assign) and _mentions(core.src(m.value), base) and (_names(m.targets[0]) & deps):
                     return True
     return False
 
